@@ -59,6 +59,9 @@ type aliasSim struct {
 	alive  []bool
 	hist   []*aBlock
 	client *aClient
+	// edgeBias (many-tree forests): half of the proof requests of proofOps are drawn from the
+	// last 24 live leaves (the small trees at the right edge)
+	edgeBias bool
 }
 
 func newAliasSim(g *Gen, rows uint8) *aliasSim {
